@@ -130,7 +130,7 @@ class Gen:
         if r < p_reg + p_collide and self.frames:
             # re-import an existing id: same or different topic/context (F7 when different)
             f = self.r.choice(self.frames)
-            same = self.r.random() < 0.5 or not self.wild
+            same = self.r.random() < 0.5     # another topic / context: inside the theorems since the F7 fix
             ctx = f["ctx"] if same else self.pick_ctx()
             topic = f["topic"] if same else self.pick_topic()
             ln = self.emit(f"import @{f['line']} {ctx} {xh(topic)} {hsh} {xh(meta) if meta else '-'} {ttl}",
